@@ -122,6 +122,13 @@ def redirect_pin_cases(res):
             # (1) the second hop is pinned to ANOTHER certificate than the one it presents (which the first hop already showed)
             p1 = Path(tmp) / ("s1-%s-%d.db" % second); TOFUDatabase(p1).trust(second[0], second[1], cs[1]["cert"])
             scen.append(("second hop pinned to a different certificate", second, p1, peers, "changed"))
+            # (1b) the same, but what the second hop presents is outside its validity period (expired / not yet valid): still a pin
+            # mismatch, still refused before anything is sent
+            for nm in ("expired", "notyet"):
+                ci = next(i for i, c in enumerate(cs) if c["name"] == nm)
+                peers_b = {("a.example", 1965): (0, ("30 %s\r\n" % hop2).encode()), second: (ci, b"20 text/plain\r\nfinal")}
+                pb = Path(tmp) / ("s1%s-%s-%d.db" % ((nm,) + second)); TOFUDatabase(pb).trust(second[0], second[1], cs[1]["cert"])
+                scen.append(("second hop pinned to a different certificate; it presents one that is %s" % nm, second, pb, peers_b, "changed"))
             # (2) nothing pinned: both hops must be pinned afterwards
             p2 = Path(tmp) / ("s2-%s-%d.db" % second); TOFUDatabase(p2)
             scen.append(("nothing pinned", second, p2, peers, "ok"))
